@@ -1,1 +1,117 @@
-// harnesses for module m_type_matcher (included into /repo under cfg(kani))
+// C13: -type / -xtype use the right status record; C11: their operand parser is total.
+use super::*;
+use crate::find::matchers::entry::verif_kani::*;
+
+pub fn ft_of(mode: u32) -> FileType {
+    match mode & libc::S_IFMT {
+        libc::S_IFDIR => FileType::Directory,
+        libc::S_IFREG => FileType::Regular,
+        libc::S_IFLNK => FileType::Symlink,
+        libc::S_IFIFO => FileType::Fifo,
+        libc::S_IFCHR => FileType::CharDevice,
+        libc::S_IFBLK => FileType::BlockDevice,
+        libc::S_IFSOCK => FileType::Socket,
+        _ => FileType::Unknown,
+    }
+}
+fn any_ft() -> FileType {
+    match kani::any::<u8>() % 7 { 0 => FileType::Directory, 1 => FileType::Regular, 2 => FileType::Symlink, 3 => FileType::Fifo, 4 => FileType::CharDevice, 5 => FileType::BlockDevice, _ => FileType::Socket }
+}
+
+// @harness props=C13 tier=quick cost=200 flags=nomem
+// @exec TypeMatcher::matches, XtypeMatcher::matches, WalkEntry::{file_type,metadata,follow}, Follow::{metadata,metadata_at_depth,follow_at_depth}, WalkError::{is_not_found,is_loop}
+// @sym world (lstat/stat records of every file type, stat errno {ENOENT, ELOOP}), follow P/H/L, depth 0..2, wanted type (7 letters)
+// @bounds one path; depth <= 2
+// @assume kernel contract for stat vs lstat
+/// -type tests the record the follow mode selects (dangling link: the link); -xtype makes the opposite choice; ELOOP matches -xtype l.
+#[kani::proof]
+#[kani::unwind(3)]
+#[kani::stub(alloc::fmt::format, fmt_stub)]
+#[kani::stub(std::fs::metadata, stat_stub)]
+#[kani::stub(std::fs::symlink_metadata, lstat_stub)]
+fn c13_type_xtype_record() {
+    let (lst, sst, s_ok, s_err) = any_world(&[libc::ENOENT, libc::ELOOP]);
+    let follow = any_follow();
+    let depth: usize = kani::any();
+    kani::assume(depth <= 2);
+    let entry = WalkEntry::new("a", depth, follow);
+    let want_ft = any_ft();
+    let deps = Deps::new();
+    let mut io = MatcherIO::new(&deps);
+    let follows = follow.follow_at_depth(depth);
+    // -type
+    let got_type = TypeMatcher { file_type: want_ft }.matches(&entry, &mut io);
+    match selected_record(lst, sst, s_ok, s_err, follows) {
+        Some(rec) => assert!(got_type == (ft_of(rec.st_mode) == want_ft)),
+        None => assert!(!got_type), // stat failed with a real error: type unknown, never one of the seven letters
+    }
+    // -xtype: the opposite choice
+    let got_x = XtypeMatcher { file_type: want_ft }.matches(&entry, &mut io);
+    let want_x = if follows { ft_of(lst.st_mode) == want_ft }
+        else if s_ok { ft_of(sst.st_mode) == want_ft }
+        else if s_err == libc::ENOENT { ft_of(lst.st_mode) == want_ft }
+        else { want_ft == FileType::Symlink };
+    assert!(got_x == want_x);
+    kani::cover!(got_type && follows && is_type(lst.st_mode, libc::S_IFLNK) && s_ok);
+    kani::cover!(got_x && !follows && !s_ok && s_err == libc::ELOOP);
+    kani::cover!(got_type && want_ft == FileType::Symlink && follows && !s_ok);
+    std::mem::forget(entry);
+}
+#[kani::proof]
+#[kani::unwind(3)]
+#[kani::stub(alloc::fmt::format, fmt_stub)]
+#[kani::stub(std::fs::metadata, stat_stub)]
+#[kani::stub(std::fs::symlink_metadata, lstat_stub)]
+fn c13_type_xtype_record_canary() {
+    let (lst, _sst, _s_ok, _s_err) = any_world(&[libc::ENOENT]);
+    let entry = WalkEntry::new("a", 0, any_follow());
+    let want_ft = any_ft();
+    let deps = Deps::new();
+    let mut io = MatcherIO::new(&deps);
+    let got_type = TypeMatcher { file_type: want_ft }.matches(&entry, &mut io);
+    assert!(got_type == (ft_of(lst.st_mode) == want_ft)); // always lstat: must FAIL
+    std::mem::forget(entry);
+}
+
+// @harness props=C11,C13 tier=quick cost=5
+// @exec TypeMatcher::new, XtypeMatcher::new, type_matcher::parse
+// @sym operand of 1 or 2 symbolic ASCII bytes
+// @bounds operand length <= 2
+/// -type/-xtype accept exactly the single letters f d l b c p s; every other operand is rejected without panic.
+#[kani::proof]
+#[kani::unwind(4)]
+#[kani::stub(alloc::fmt::format, fmt_stub)]
+#[kani::stub(alloc::raw_vec::handle_error, he_stub)]
+#[kani::stub(std::alloc::handle_alloc_error, hae_stub)]
+fn c11_type_operand() {
+    let b: [u8; 2] = kani::any();
+    kani::assume(b[0] < 0x80 && b[1] < 0x80);
+    let len: usize = if kani::any() { 1 } else { 2 };
+    let s = unsafe { std::str::from_utf8_unchecked(&b[..len]) };
+    let ok = len == 1 && (b[0] == b'f' || b[0] == b'd' || b[0] == b'l' || b[0] == b'b' || b[0] == b'c' || b[0] == b'p' || b[0] == b's');
+    if kani::any() {
+        let r = TypeMatcher::new(s);
+        assert!(r.is_ok() == ok);
+        if let Ok(m) = &r { assert!(m.file_type == match b[0] { b'f' => FileType::Regular, b'd' => FileType::Directory, b'l' => FileType::Symlink, b'b' => FileType::BlockDevice, b'c' => FileType::CharDevice, b'p' => FileType::Fifo, _ => FileType::Socket }); }
+        kani::cover!(r.is_ok());
+        kani::cover!(r.is_err() && len == 1);
+        std::mem::forget(r);
+    } else {
+        let r = XtypeMatcher::new(s);
+        assert!(r.is_ok() == ok);
+        std::mem::forget(r);
+    }
+}
+#[kani::proof]
+#[kani::unwind(4)]
+#[kani::stub(alloc::fmt::format, fmt_stub)]
+#[kani::stub(alloc::raw_vec::handle_error, he_stub)]
+#[kani::stub(std::alloc::handle_alloc_error, hae_stub)]
+fn c11_type_operand_canary() {
+    let b: [u8; 1] = kani::any();
+    kani::assume(b[0] < 0x80);
+    let s = unsafe { std::str::from_utf8_unchecked(&b[..]) };
+    let r = TypeMatcher::new(s);
+    assert!(r.is_ok() == (b[0] == b'f' || b[0] == b'd')); // too narrow: must FAIL
+    std::mem::forget(r);
+}
